@@ -123,43 +123,56 @@ Proof. exact acts_only_along_history. Qed.
 Theorem C12_rfc6492_never_panics : forall validate st ua m, snd (rfc6492 validate st ua m) <> Panicked.
 Proof. exact rfc6492_never_panics. Qed.
 
-(** The local shortcut: the full statement is refuted by the F12a witness (a CA that is no child of
-    the parent stores a contact naming another child's handle and is served as that child) ... *)
-Theorem C12_local_path_refuted : ~ local_acts_only_for_registered_key.
-Proof. exact local_path_refuted. Qed.
-
-(** ... it holds when the caller's contact names the child the caller is registered as, where the
-    shortcut coincides with the remote path fed with a correctly signed message ... *)
-Theorem C12_local_acts_only_when_contact_matches : forall st cl r st' out c,
-    contact_handle_matches_registration st cl ->
-    local6492 st cl r = (st', out) -> acted_for out = Some c -> out <> Errored c ->
+(** The local shortcut (repaired tree, /repo 1a6ebc01): it acts only for a child whose registered ID key is the
+    calling CA's own ID key ... *)
+Theorem C12_local_acts_only_for_registered_key : forall st cl r st' out c,
+    local6492 st cl r = (st', out) -> acted_for out = Some c ->
     exists ch, aget c (p_children st) = Some ch /\ ch_id ch = cl_id cl.
-Proof. exact local_acts_only_when_contact_matches. Qed.
+Proof. exact local_acts_only_for_registered_key. Qed.
 
-Theorem C12_local_equals_remote_when_contact_matches : forall validate st cl r ch,
+(** ... a caller with any other key (or a contact naming nobody) is refused, and a refusal changes nothing ... *)
+Theorem C12_local_wrong_key_refused : forall st cl r,
+    (forall ch, aget (cl_contact_child cl) (p_children st) = Some ch -> ch_id ch <> cl_id cl) ->
+    local6492 st cl r = (st, Refused).
+Proof. exact local_wrong_key_refused. Qed.
+
+Theorem C12_local_refused_no_change : forall st cl r st', local6492 st cl r = (st', Refused) -> st' = st.
+Proof. exact local_refused_no_change. Qed.
+
+(** ... the shortcut coincides, in every case, with the remote path fed with the message the caller would have
+    signed with its own ID key ... *)
+Theorem C12_local_equals_remote : forall validate st cl r,
     cms_sound validate ->
-    aget (cl_contact_child cl) (p_children st) = Some ch -> ch_id ch = cl_id cl ->
     let m := mkMsg (cl_contact_child cl) (p_handle st) r (cl_id cl) true in
     fst (local6492 st cl r) = fst (rfc6492 validate st local_ua m) /\
     match snd (local6492 st cl r), snd (rfc6492 validate st local_ua m) with
     | Served c1 r1, Served c2 r2 => c1 = c2 /\ payload r1 = payload r2
     | Errored c1, Errored c2 | Failed c1, Failed c2 => c1 = c2
-    | Panicked, Panicked => True
+    | Panicked, Panicked | Refused, Refused => True
     | _, _ => False
     end.
-Proof. exact local_equals_remote_when_contact_matches. Qed.
+Proof. exact local_equals_remote. Qed.
 
-(** ... and in every case the effects stay confined to the child named in the contact. *)
-Theorem C12_local_effects_confined : forall st cl r st' out ch0,
-    aget (cl_contact_child cl) (p_children st) = Some ch0 -> local6492 st cl r = (st', out) ->
-    confined (ch_ent ch0) (is_issued ch0) (cl_contact_child cl) st st'.
+(** ... and the effects stay confined to the child named in the contact. *)
+Theorem C12_local_effects_confined : forall st cl r st' out,
+    local6492 st cl r = (st', out) ->
+    match aget (cl_contact_child cl) (p_children st) with
+    | Some ch0 => confined (ch_ent ch0) (is_issued ch0) (cl_contact_child cl) st st'
+    | None => st' = st
+    end.
 Proof. exact local_effects_confined. Qed.
 
-(** Comparing the caller's ID key with the registered one (the fix sketched in DESIGN.md) restores the full statement. *)
-Theorem C12_local_checked_acts_only_for_registered_key : forall st cl r st' out c,
-    local6492_checked st cl r = (st', out) -> acted_for out = Some c ->
+(** Regression witness (finding F12a, fixed): the originally pinned shortcut, which involved no key, does NOT
+    satisfy the statement - a CA whose stored parent contact names another child's handle was served as that
+    child; it was right exactly for honest contacts. *)
+Theorem C12_local_pinned_refuted : ~ local_acts_only_for_registered_key_on local6492_pinned.
+Proof. exact local_pinned_refuted. Qed.
+
+Theorem C12_local_pinned_acts_only_when_contact_matches : forall st cl r st' out c,
+    contact_handle_matches_registration st cl ->
+    local6492_pinned st cl r = (st', out) -> acted_for out = Some c -> out <> Errored c ->
     exists ch, aget c (p_children st) = Some ch /\ ch_id ch = cl_id cl.
-Proof. exact local_checked_acts_only_for_registered_key. Qed.
+Proof. exact local_pinned_acts_only_when_contact_matches. Qed.
 
 Theorem C12_local8181_serves_own_handle : forall rp cl q rp' out h,
     local8181 rp cl q = (rp', out) -> acted_for out = Some h -> h = cl_handle cl.
@@ -202,11 +215,13 @@ Print Assumptions C12_new_child_key_validated.
 Print Assumptions C12_replaced_publisher_key_refused.
 Print Assumptions C12_acts_only_along_history.
 Print Assumptions C12_rfc6492_never_panics.
-Print Assumptions C12_local_path_refuted.
-Print Assumptions C12_local_acts_only_when_contact_matches.
-Print Assumptions C12_local_equals_remote_when_contact_matches.
+Print Assumptions C12_local_acts_only_for_registered_key.
+Print Assumptions C12_local_wrong_key_refused.
+Print Assumptions C12_local_refused_no_change.
+Print Assumptions C12_local_equals_remote.
 Print Assumptions C12_local_effects_confined.
-Print Assumptions C12_local_checked_acts_only_for_registered_key.
+Print Assumptions C12_local_pinned_refuted.
+Print Assumptions C12_local_pinned_acts_only_when_contact_matches.
 Print Assumptions C12_local8181_serves_own_handle.
 Print Assumptions C12_local8181_effects_confined.
 Print Assumptions C12_local8181_path_refuted.
